@@ -136,6 +136,14 @@ func (w *World) EventsSince(i int) []Ev {
 	return append([]Ev(nil), w.Events[i:]...)
 }
 
+// DropHistory detaches the history from the world once the run's result has taken it.
+func (w *World) DropHistory() {
+	w.mu.Lock()
+	w.Events = nil
+	w.maxEvents = 0
+	w.mu.Unlock()
+}
+
 // Fault counts a fault that actually fired.
 func (w *World) Fault(kind string) { w.mu.Lock(); w.Faults[kind]++; w.mu.Unlock() }
 
